@@ -75,6 +75,36 @@ H void h_imc_state(void* imcv, const double* avg, long nbins, long is_bonded, do
   i->is_bonded_ = is_bonded != 0; i->norm_ = norm; i->step_ = step; i->threebody_ = false; i->force_ = false;
   imc->avg_vol_.Clear(); imc->avg_vol_.Process(vol);
 }
+// ---- which neighbour search csg_stat runs for a non-bonded interaction (Imc::Worker::DoNonbonded): the option tree is four
+// harness-held values (name, type1..3; Property::get / exists are redirected here by the checker), BeadList::Generate and the
+// NBList*::Generate overloads are recording stubs ----
+alignas(16) static char prop_buf[5][sizeof(votca::tools::Property)];
+static votca::tools::Property* g_nbprop[1];
+extern "C" __attribute__((noinline)) votca::tools::Property* h_prop_get(const std::string* key) {
+  int k = (*key == "name") ? 1 : (*key == "type1") ? 2 : (*key == "type2") ? 3 : (*key == "type3") ? 4 : 0;
+  return reinterpret_cast<votca::tools::Property*>(prop_buf[k]);
+}
+extern "C" __attribute__((noinline)) void h_noop(void*) {}
+H void h_imc_donb(void* imcv, long threebody, char t1, char t2, char t3, void* top) {
+  Imc* imc = reinterpret_cast<Imc*>(imcv);
+  std::memset(prop_buf, 0, sizeof prop_buf);
+  for (int k = 0; k < 5; k++) new (&reinterpret_cast<votca::tools::Property*>(prop_buf[k])->value_) std::string();
+  reinterpret_cast<votca::tools::Property*>(prop_buf[1])->value_ = "A-A";
+  reinterpret_cast<votca::tools::Property*>(prop_buf[2])->value_ = std::string(1, t1);
+  reinterpret_cast<votca::tools::Property*>(prop_buf[3])->value_ = std::string(1, t2);
+  reinterpret_cast<votca::tools::Property*>(prop_buf[4])->value_ = std::string(1, t3);
+  new (&imc->nonbonded_) std::vector<votca::tools::Property*>();
+  imc->nonbonded_.push_back(reinterpret_cast<votca::tools::Property*>(prop_buf[0]));
+  Imc::interaction_t* i = imc->interactions_.begin()->second.get();
+  i->threebody_ = threebody != 0; i->cut_ = 0.5; i->force_ = false;
+  std::memset(wrk_buf, 0, sizeof wrk_buf);
+  Imc::Worker* w = reinterpret_cast<Imc::Worker*>(wrk_buf);
+  new (&w->current_hists_) std::vector<votca::tools::HistogramNew>(1);
+  new (&w->current_hists_force_) std::vector<votca::tools::HistogramNew>(1);
+  w->current_hists_[0].Initialize(0.0, 3.0, 4); w->current_hists_force_[0].Initialize(0.0, 3.0, 4);
+  w->imc_ = imc;
+  w->Imc::Worker::DoNonbonded(reinterpret_cast<Topology*>(top));
+}
 H void h_imc_writedist(void* imcv) { reinterpret_cast<Imc*>(imcv)->WriteDist(std::string("s")); }
 H long h_table_size(const votca::tools::Table* t) { return (long)t->size(); }
 H double h_table_x(const votca::tools::Table* t, long i) { return t->x(i); }
